@@ -12,9 +12,10 @@ RULE = ('contents constructed from the bit-cost model so that every residue (str
         'remainder bits and each part is checked; distinct = (symbol kind, residue after the last segment, distance class) '
         'combinations observed')
 ASSUMPTIONS = common.ASSUME_QR
-REQUIRED = ['evaluations', 'encode_observed', 'symbols_decoded', 'tails_checked', 'tails_with_pad_codewords',
+REQUIRED = ['cases_under_python_O', 'evaluations', 'encode_observed', 'symbols_decoded', 'tails_checked', 'tails_with_pad_codewords',
             'tails_truncated_terminator', 'tails_m1m3']
 TIMEOUT = {'quick': 3600, 'thorough': 21600}
+OPT_SLICE = {'quick': 120, 'thorough': 1500}     # cases re-run by one more worker under python -O (core.run_sharded)
 
 
 def gen_cases(tier, seed):
